@@ -296,12 +296,555 @@ fn cmd_buffers(args: &[String]) {
     println!("{}", json!({"records":n,"messages":nmsg}));
 }
 
+// ---------------------------------------------------------------------------------------
+// roundtrip: C01 (encode then decode), C02 (RFC layouts), C04 / C10 inputs
+// ---------------------------------------------------------------------------------------
+use rustun_verif_harness::zoo;
+
+const RT_USER: &str = "rt-user";
+const RT_REALM: &str = "rt.example.org";
+const RT_PASSWORD: &str = "rt pässword";
+
+pub struct RtKey {
+    pub name: &'static str,
+    pub lib: HMACKey,
+    pub raw: Vec<u8>,
+}
+
+fn rt_keys() -> Vec<RtKey> {
+    use stun_rs::{Algorithm, AlgorithmId};
+    vec![
+        RtKey { name: "st", lib: HMACKey::new_short_term(RT_PASSWORD).unwrap(), raw: obs::st_key(RT_PASSWORD) },
+        RtKey { name: "lt-md5",
+                lib: HMACKey::new_long_term(RT_USER, RT_REALM, RT_PASSWORD, Algorithm::from(AlgorithmId::MD5)).unwrap(),
+                raw: obs::lt_key(RT_USER, RT_REALM, RT_PASSWORD, 1) },
+        RtKey { name: "lt-sha256",
+                lib: HMACKey::new_long_term(RT_USER, RT_REALM, RT_PASSWORD, Algorithm::from(AlgorithmId::SHA256)).unwrap(),
+                raw: obs::lt_key(RT_USER, RT_REALM, RT_PASSWORD, 2) },
+    ]
+}
+
+fn class_of(c: u8) -> stun_rs::MessageClass {
+    match c {
+        0 => stun_rs::MessageClass::Request,
+        1 => stun_rs::MessageClass::Indication,
+        2 => stun_rs::MessageClass::SuccessResponse,
+        _ => stun_rs::MessageClass::ErrorResponse,
+    }
+}
+fn class_str(c: stun_rs::MessageClass) -> &'static str {
+    match c {
+        stun_rs::MessageClass::Request => "request",
+        stun_rs::MessageClass::Indication => "indication",
+        stun_rs::MessageClass::SuccessResponse => "success",
+        stun_rs::MessageClass::ErrorResponse => "error",
+    }
+}
+
+fn strip_helpers(kind: &str, v: &Value) -> Value {
+    if kind == "UserHash" {
+        json!({"h": v["h"]})
+    } else {
+        v.clone()
+    }
+}
+
+fn bytes_json(b: &[u8]) -> Value {
+    Value::Array(b.iter().map(|x| json!(*x)).collect())
+}
+
+/// one roundtrip record. attrs = (kind, logical fields incl. helpers); tail = subset of
+/// ["MessageIntegrity","MessageIntegritySha256","Fingerprint"] in legal order
+fn rt_record(method: u16, class: u8, txid: [u8; 12], attrs: &[(String, Value)], tail: &[&str], key: &RtKey) -> Value {
+    use stun_rs::attributes::stun::{Fingerprint, MessageIntegrity, MessageIntegritySha256};
+    let logical: Vec<Value> = attrs
+        .iter()
+        .map(|(k, v)| json!({"kind":k,"fields":strip_helpers(k, v)}))
+        .chain(tail.iter().map(|k| json!({"kind":k,"fields":{}})))
+        .collect();
+    let mut rec = json!({"op":"rt","method":method,"cls":obs::class_name(class),"txid":bytes_json(&txid),
+                         "attrs":logical,"key":key.name,"big":false});
+    let built = catch_unwind(AssertUnwindSafe(|| {
+        let mut b = stun_rs::StunMessageBuilder::new(
+            stun_rs::MessageMethod::try_from(method).unwrap(), class_of(class))
+            .with_transaction_id(stun_rs::TransactionId::from(txid));
+        for (k, v) in attrs {
+            b = b.with_attribute(zoo::construct(k, v).map_err(|e| format!("{}: {}", k, e))?);
+        }
+        for t in tail {
+            b = match *t {
+                "MessageIntegrity" => b.with_attribute(MessageIntegrity::new(key.lib.clone())),
+                "MessageIntegritySha256" => b.with_attribute(MessageIntegritySha256::new(key.lib.clone())),
+                _ => b.with_attribute(Fingerprint::default()),
+            };
+        }
+        Ok::<_, String>(b.build())
+    }));
+    let msg = match built {
+        Err(_) => { rec["enc"] = json!("panic"); rec["stage"] = json!("construct"); return rec; }
+        Ok(Err(e)) => { rec["enc"] = json!("construct-err"); rec["stage"] = json!(e); return rec; }
+        Ok(Ok(m)) => m,
+    };
+    let need: usize = 20 + attrs.len() * 70000; // generous
+    let mut buffer = vec![0xC3u8; need.min(400000).max(70000)];
+    let enc = stun_rs::MessageEncoderBuilder::default().build();
+    let r = catch_unwind(AssertUnwindSafe(|| enc.encode(&mut buffer, &msg)));
+    let size = match r {
+        Err(_) => { rec["enc"] = json!("panic"); return rec; }
+        Ok(Err(e)) => { rec["enc"] = json!("err"); rec["stage"] = json!(format!("{}", e)); return rec; }
+        Ok(Ok(s)) => s,
+    };
+    rec["enc"] = json!("ok");
+    rec["enc_size"] = json!(size);
+    if size > buffer.len() { rec["enc"] = json!("size-beyond-buffer"); return rec; }
+    let bytes = buffer[..size].to_vec();
+    let big = size > 2400;
+    rec["big"] = json!(big);
+    rec["hdr_len"] = json!(u16::from_be_bytes([bytes[2], bytes[3]]));
+    // observer view: TLV framing and the opaque values of the tail attributes
+    let parsed = obs::parse(&bytes);
+    rec["parse_ok"] = json!(parsed.is_some());
+    let mut opaque = json!({"MessageIntegrity":[],"MessageIntegritySha256":[],"Fingerprint":[]});
+    if let Some(p) = &parsed {
+        for a in &p.attrs {
+            match a.t {
+                obs::T_MI => opaque["MessageIntegrity"] = bytes_json(&a.value),
+                obs::T_SHA => opaque["MessageIntegritySha256"] = bytes_json(&a.value),
+                obs::T_FP => opaque["Fingerprint"] = bytes_json(&a.value),
+                _ => {}
+            }
+        }
+        rec["pad_zero"] = json!(p.attrs.iter().all(|a| a.padding.iter().all(|b| *b == 0)));
+        rec["wire_types"] = json!(p.attrs.iter().map(|a| a.t as u64).collect::<Vec<u64>>());
+        // C04 / C10: reference MAC / CRC at each tail attribute's position
+        let mut refs = json!({});
+        for (i, a) in p.attrs.iter().enumerate() {
+            let input = obs::mac_input(&bytes, p, i);
+            match a.t {
+                obs::T_MI => refs["MessageIntegrity"] = json!(obs::hmac_sha1(&key.raw, &input) == a.value),
+                obs::T_SHA => refs["MessageIntegritySha256"] = json!(obs::hmac_sha256(&key.raw, &input) == a.value),
+                obs::T_FP => refs["Fingerprint"] = json!((obs::crc32(&input) ^ obs::FP_XOR).to_be_bytes()[..] == a.value[..]),
+                _ => {}
+            }
+        }
+        rec["ref_ok"] = refs;
+    }
+    rec["opaque"] = opaque;
+    if !big {
+        rec["bytes"] = bytes_json(&bytes);
+    } else {
+        rec["bytes"] = json!([]);
+        // big messages: logical values are not shipped to TLC, the harness compares them
+        rec["attrs"] = json!([]);
+    }
+    // decode (default decoder)
+    let dec = stun_rs::MessageDecoderBuilder::default().build();
+    let r = catch_unwind(AssertUnwindSafe(|| dec.decode(&bytes)));
+    match r {
+        Err(_) => { rec["dec"] = json!("panic"); }
+        Ok(Err(e)) => { rec["dec"] = json!("err"); rec["stage"] = json!(format!("{}", e)); }
+        Ok(Ok((m, dsize))) => {
+            rec["dec"] = json!("ok");
+            rec["dec_size"] = json!(dsize);
+            rec["dec_method"] = json!(m.method().as_u16());
+            rec["dec_cls"] = json!(class_str(m.class()));
+            rec["dec_txid"] = bytes_json(m.transaction_id().as_bytes());
+            let d: Vec<Value> = m.attributes().iter().map(zoo::project).collect();
+            if big {
+                rec["dec_attrs"] = json!([]);
+                rec["big_equal"] = json!(Value::Array(d) == Value::Array(logical));
+            } else {
+                rec["dec_attrs"] = Value::Array(d);
+            }
+            // validating decode with the right key must accept the encoder's own output
+            let ctx = stun_rs::DecoderContextBuilder::default().with_key(key.lib.clone()).with_validation().build();
+            let vdec = stun_rs::MessageDecoderBuilder::default().with_context(ctx).build();
+            rec["validates"] = json!(matches!(catch_unwind(AssertUnwindSafe(|| vdec.decode(&bytes))), Ok(Ok(_))));
+        }
+    }
+    rec
+}
+
+const TAILS: &[&[&str]] = &[
+    &[], &["MessageIntegrity"], &["MessageIntegritySha256"], &["MessageIntegrity", "MessageIntegritySha256"],
+    &["Fingerprint"], &["MessageIntegrity", "Fingerprint"], &["MessageIntegritySha256", "Fingerprint"],
+    &["MessageIntegrity", "MessageIntegritySha256", "Fingerprint"],
+];
+
+fn body_kinds() -> Vec<&'static str> {
+    zoo::kinds().into_iter()
+        .filter(|k| !["MessageIntegrity", "MessageIntegritySha256", "Fingerprint"].contains(k))
+        .collect()
+}
+
+fn cmd_roundtrip(args: &[String]) {
+    let out = arg(args, "--out", "out");
+    let seed: u64 = arg(args, "--seed", "1").parse().unwrap();
+    let n: usize = arg(args, "--messages", "1500").parse().unwrap();
+    let cases = arg(args, "--cases", "");
+    std::fs::create_dir_all(&out).unwrap();
+    let mut f = BufWriter::new(File::create(format!("{}/trace.ndjson", out)).unwrap());
+    let mut cf = BufWriter::new(File::create(format!("{}/cases.ndjson", out)).unwrap());
+    let mut rng = StdRng::seed_from_u64(seed);
+    let keys = rt_keys();
+    let kinds = body_kinds();
+    let mut count = 0u64;
+    let mut emit = |method: u16, class: u8, txid: [u8; 12], attrs: &[(String, Value)], tail: &[&str], ki: usize, count: &mut u64| {
+        let r = rt_record(method, class, txid, attrs, tail, &keys[ki]);
+        writeln!(f, "{}", r).unwrap();
+        writeln!(cf, "{}", json!({"method":method,"class":class,"txid":bytes_json(&txid),
+            "attrs":attrs.iter().map(|(k, v)| json!({"kind":k,"fields":v})).collect::<Vec<Value>>(),
+            "tail":tail,"key":ki})).unwrap();
+        *count += 1;
+    };
+    if !cases.is_empty() {
+        let v: Value = serde_json::from_str(&std::fs::read_to_string(&cases).unwrap()).unwrap();
+        for c in v["cases"].as_array().cloned().unwrap_or_default() {
+            let attrs: Vec<(String, Value)> = c["attrs"].as_array().unwrap().iter()
+                .map(|a| (a["kind"].as_str().unwrap().to_string(), a["fields"].clone())).collect();
+            let tail_s: Vec<String> = c["tail"].as_array().unwrap().iter().map(|t| t.as_str().unwrap().to_string()).collect();
+            let tail: Vec<&str> = tail_s.iter().map(|s| s.as_str()).collect();
+            let mut txid = [0u8; 12];
+            for (i, b) in c["txid"].as_array().unwrap().iter().enumerate().take(12) { txid[i] = b.as_u64().unwrap() as u8; }
+            emit(c["method"].as_u64().unwrap() as u16, c["class"].as_u64().unwrap() as u8, txid, &attrs, &tail,
+                 c["key"].as_u64().unwrap_or(0) as usize, &mut count);
+        }
+    } else {
+        // systematic: every kind x every edge value, alone, cycling through tails / classes / keys
+        let mut cyc = 0usize;
+        for k in &kinds {
+            for e in 0..zoo::n_edges(k) {
+                let v = zoo::generate(k, &mut rng, e);
+                let mut txid = [0u8; 12];
+                rng.fill(&mut txid);
+                emit([1u16, 3, 0, 0xFFF, 0x80, 0x7F][cyc % 6], (cyc % 4) as u8, txid, &[(k.to_string(), v)],
+                     TAILS[cyc % TAILS.len()], cyc % 3, &mut count);
+                cyc += 1;
+            }
+        }
+        // random messages
+        for _ in 0..n {
+            let na = *[0usize, 1, 1, 2, 2, 3, 4, 6][rng.random_range(0..8)..].first().unwrap();
+            let attrs: Vec<(String, Value)> = (0..na).map(|_| {
+                let k = kinds[rng.random_range(0..kinds.len())];
+                let ne = zoo::n_edges(k);
+                let e = if rng.random_range(0..4) == 0 { rng.random_range(0..ne.max(1)) } else { usize::MAX };
+                (k.to_string(), zoo::generate(k, &mut rng, e))
+            }).collect();
+            let mut txid = [0u8; 12];
+            rng.fill(&mut txid);
+            let method: u16 = if rng.random_range(0..3) == 0 { rng.random_range(0..0x1000) } else { *[1u16, 3, 4, 6, 7, 8, 9][rng.random_range(0..7)..].first().unwrap() };
+            emit(method, rng.random_range(0..4), txid, &attrs, TAILS[rng.random_range(0..TAILS.len())],
+                 rng.random_range(0..3), &mut count);
+        }
+    }
+    drop(emit);
+    f.flush().unwrap();
+    cf.flush().unwrap();
+    println!("{}", json!({"records":count}));
+}
+
+// ---------------------------------------------------------------------------------------
+// msgtype: C02, all 16,384 (method, class) pairs through the real MessageType
+// ---------------------------------------------------------------------------------------
+fn cmd_msgtype(args: &[String]) {
+    let out = arg(args, "--out", "out");
+    std::fs::create_dir_all(&out).unwrap();
+    let mut f = BufWriter::new(File::create(format!("{}/trace.ndjson", out)).unwrap());
+    let mut n = 0u64;
+    for m in 0u16..0x1000 {
+        for c in 0u8..4 {
+            let r = catch_unwind(|| {
+                stun_rs::MessageType::new(stun_rs::MessageMethod::try_from(m).unwrap(), class_of(c)).as_u16()
+            });
+            match r {
+                Ok(t) => writeln!(f, "{}", json!({"op":"mt","m":m,"c":obs::class_name(c),"t":t,"panic":false})).unwrap(),
+                Err(_) => writeln!(f, "{}", json!({"op":"mt","m":m,"c":obs::class_name(c),"t":-1,"panic":true})).unwrap(),
+            }
+            n += 1;
+        }
+    }
+    let step: usize = arg(args, "--from-step", "1").parse().unwrap();
+    for v in (0u32..0x10000).step_by(step) {
+        let r = catch_unwind(|| {
+            let t = stun_rs::MessageType::from(v as u16);
+            (t.method().as_u16(), class_str(t.class()))
+        });
+        match r {
+            Ok((m, c)) => writeln!(f, "{}", json!({"op":"mt_from","v":v,"m":m,"c":c,"panic":false})).unwrap(),
+            Err(_) => writeln!(f, "{}", json!({"op":"mt_from","v":v,"m":-1,"c":"","panic":true})).unwrap(),
+        }
+        n += 1;
+    }
+    f.flush().unwrap();
+    println!("{}", json!({"records":n}));
+}
+
+// ---------------------------------------------------------------------------------------
+// ignorable: C02 decode side. Spec-conformant bytes with ignorable bits altered decode to the
+// same logical content. The harness only CHOOSES alterations; which bits are ignorable is
+// stated by WireLayout!MaskMessage and checked by TLC on every record.
+// ---------------------------------------------------------------------------------------
+fn ignorable_mask(kind: &str, vlen: usize) -> Vec<u8> {
+    let mut m = vec![0u8; vlen];
+    match kind {
+        "MappedAddress" | "AlternateServer" | "OtherAddress" | "ResponseOrigin" | "XorMappedAddress"
+        | "XorPeerAddress" | "XorRelayedAddress" => { if vlen > 0 { m[0] = 0xFF; } }
+        "ChannelNumber" => { if vlen >= 4 { m[2] = 0xFF; m[3] = 0xFF; } }
+        "RequestedTrasport" | "RequestedAddressFamily" | "AdditionalAddressFamily" => {
+            for x in m.iter_mut().skip(1) { *x = 0xFF; }
+        }
+        "EvenPort" => { if vlen > 0 { m[0] = 0x7F; } }
+        "Icmp" => { if vlen >= 2 { m[0] = 0xFF; m[1] = 0xFF; } }
+        _ => {}
+    }
+    m
+}
+
+fn cmd_ignorable(args: &[String]) {
+    let out = arg(args, "--out", "out");
+    let seed: u64 = arg(args, "--seed", "1").parse().unwrap();
+    let n: usize = arg(args, "--messages", "300").parse().unwrap();
+    let variants: usize = arg(args, "--variants", "4").parse().unwrap();
+    std::fs::create_dir_all(&out).unwrap();
+    let mut f = BufWriter::new(File::create(format!("{}/trace.ndjson", out)).unwrap());
+    let mut rng = StdRng::seed_from_u64(seed);
+    let kinds = body_kinds();
+    let special = ["MappedAddress", "AlternateServer", "OtherAddress", "ResponseOrigin", "XorMappedAddress",
+        "XorPeerAddress", "XorRelayedAddress", "ChannelNumber", "RequestedTrasport", "RequestedAddressFamily",
+        "AdditionalAddressFamily", "EvenPort", "Icmp", "Software", "UserName", "Data", "PasswordAlgorithms"];
+    let mut count = 0u64;
+    for i in 0..n {
+        let na = rng.random_range(1..=4usize);
+        let attrs: Vec<(String, Value)> = (0..na).map(|j| {
+            let k = if (i + j) % 3 != 0 { special[rng.random_range(0..special.len())] } else { kinds[rng.random_range(0..kinds.len())] };
+            (k.to_string(), zoo::generate(k, &mut rng, usize::MAX))
+        }).collect();
+        let mut txid = [0u8; 12];
+        rng.fill(&mut txid);
+        // reference bytes via the real encoder (checked against the spec by TLC in the same record)
+        let mut b = stun_rs::StunMessageBuilder::new(stun_rs::methods::BINDING, stun_rs::MessageClass::SuccessResponse)
+            .with_transaction_id(stun_rs::TransactionId::from(txid));
+        let mut okc = true;
+        for (k, v) in &attrs {
+            match zoo::construct(k, v) { Ok(a) => b = b.with_attribute(a), Err(_) => okc = false }
+        }
+        if !okc { continue; }
+        let msg = b.build();
+        let mut buffer = vec![0u8; 300000];
+        let enc = stun_rs::MessageEncoderBuilder::default().build();
+        let Ok(Ok(size)) = catch_unwind(AssertUnwindSafe(|| enc.encode(&mut buffer, &msg))) else { continue };
+        if size > 2400 { continue; }
+        let bytes = buffer[..size].to_vec();
+        let Some(p) = obs::parse(&bytes) else { continue };
+        if p.attrs.len() != attrs.len() { continue; }
+        // positions (index in message, mask) of ignorable bits
+        let mut pos: Vec<(usize, u8)> = Vec::new();
+        for (a, (k, _)) in p.attrs.iter().zip(attrs.iter()) {
+            for (j, mb) in ignorable_mask(k, a.value.len()).iter().enumerate() {
+                if *mb != 0 { pos.push((a.off + 4 + j, *mb)); }
+            }
+            for j in 0..a.padding.len() { pos.push((a.off + 4 + a.value.len() + j, 0xFF)); }
+        }
+        if pos.is_empty() { continue; }
+        let logical: Vec<Value> = attrs.iter().map(|(k, v)| json!({"kind":k,"fields":strip_helpers(k, v)})).collect();
+        for v in 0..variants {
+            let mut alt = bytes.clone();
+            for (ix, mb) in &pos {
+                let r: u8 = if v == 0 { 0xFF } else { rng.random() };
+                alt[*ix] ^= r & mb;
+            }
+            let dec = stun_rs::MessageDecoderBuilder::default().build();
+            let r = catch_unwind(AssertUnwindSafe(|| dec.decode(&alt)));
+            let (dres, dattrs, dsize) = match r {
+                Err(_) => ("panic", json!([]), -1i64),
+                Ok(Err(_)) => ("err", json!([]), -1),
+                Ok(Ok((m, sz))) => ("ok", Value::Array(m.attributes().iter().map(zoo::project).collect()), sz as i64),
+            };
+            writeln!(f, "{}", json!({"op":"ign","method":1,"cls":"success","txid":bytes_json(&txid),"attrs":logical,
+                "bytes":bytes_json(&bytes),"alt":bytes_json(&alt),"dec":dres,"dec_attrs":dattrs,"dec_size":dsize,
+                "opaque":{"MessageIntegrity":[],"MessageIntegritySha256":[],"Fingerprint":[]}})).unwrap();
+            count += 1;
+        }
+    }
+    f.flush().unwrap();
+    println!("{}", json!({"records":count}));
+}
+
+// ---------------------------------------------------------------------------------------
+// faults: C04 (integrity) and C10 (fingerprint) fault enumeration on the real validator
+// ---------------------------------------------------------------------------------------
+/// Is `bytes` accepted as carrying a valid attribute of type `t` (admitted by the ordering rule)?
+/// Two routes: decoder with validation (+key), and plain decode + get_input_text + validate.
+fn accepted(bytes: &[u8], t: u16, key: &HMACKey) -> (bool, bool) {
+    use stun_rs::attributes::stun::{Fingerprint, MessageIntegrity, MessageIntegritySha256};
+    let has = |m: &stun_rs::StunMessage| -> bool {
+        m.attributes().iter().any(|a| a.attribute_type().as_u16() == t)
+    };
+    let ctx = stun_rs::DecoderContextBuilder::default().with_key(key.clone()).with_validation().build();
+    let vdec = stun_rs::MessageDecoderBuilder::default().with_context(ctx).build();
+    let mut panicked = false;
+    let mut via_decoder = match catch_unwind(AssertUnwindSafe(|| vdec.decode(bytes))) {
+        Err(_) => { panicked = true; false }
+        Ok(Err(_)) => false,
+        Ok(Ok((m, _))) => has(&m),
+    };
+    if t == obs::T_FP {
+        // FINGERPRINT needs no key: a validating decoder without one must reject as well
+        let ctx = stun_rs::DecoderContextBuilder::default().with_validation().build();
+        let kdec = stun_rs::MessageDecoderBuilder::default().with_context(ctx).build();
+        via_decoder |= match catch_unwind(AssertUnwindSafe(|| kdec.decode(bytes))) {
+            Err(_) => { panicked = true; false }
+            Ok(Err(_)) => false,
+            Ok(Ok((m, _))) => {
+                // messages that also carry an integrity attribute fail here for lack of a key,
+                // which is a rejection
+                has(&m)
+            }
+        };
+    }
+    let dec = stun_rs::MessageDecoderBuilder::default().build();
+    let via_validate = match catch_unwind(AssertUnwindSafe(|| {
+        let Ok((m, _)) = dec.decode(bytes) else { return false };
+        let Some(attr) = m.attributes().iter().find(|a| a.attribute_type().as_u16() == t) else { return false };
+        match attr {
+            StunAttribute::MessageIntegrity(a) => {
+                stun_rs::get_input_text::<MessageIntegrity>(bytes).map(|i| a.validate(&i, key)).unwrap_or(false)
+            }
+            StunAttribute::MessageIntegritySha256(a) => {
+                stun_rs::get_input_text::<MessageIntegritySha256>(bytes).map(|i| a.validate(&i, key)).unwrap_or(false)
+            }
+            StunAttribute::Fingerprint(a) => {
+                stun_rs::get_input_text::<Fingerprint>(bytes).map(|i| a.validate(&i)).unwrap_or(false)
+            }
+            _ => false,
+        }
+    })) {
+        Err(_) => { panicked = true; false }
+        Ok(v) => v,
+    };
+    (via_decoder || via_validate, panicked)
+}
+
+fn cmd_faults(args: &[String]) {
+    use stun_rs::attributes::stun::{Fingerprint, MessageIntegrity, MessageIntegritySha256};
+    use stun_rs::{Algorithm, AlgorithmId};
+    let out = arg(args, "--out", "out");
+    let seed: u64 = arg(args, "--seed", "1").parse().unwrap();
+    let n: usize = arg(args, "--messages", "20").parse().unwrap();
+    let what = arg(args, "--what", "integrity"); // integrity | fingerprint
+    std::fs::create_dir_all(&out).unwrap();
+    let mut f = BufWriter::new(File::create(format!("{}/trace.ndjson", out)).unwrap());
+    let mut rng = StdRng::seed_from_u64(seed);
+    let keys = rt_keys();
+    let kinds: Vec<&str> = body_kinds().into_iter().filter(|k| *k != "Padding").collect();
+    let (mut count, mut nmsg) = (0u64, 0u64);
+    let tails: Vec<&[&str]> = if what == "integrity" {
+        TAILS.iter().filter(|t| t.iter().any(|k| k.starts_with("MessageIntegrity"))).cloned().collect()
+    } else {
+        TAILS.iter().filter(|t| t.contains(&"Fingerprint")).cloned().collect()
+    };
+    for i in 0..n {
+        let na = rng.random_range(0..=3usize);
+        let attrs: Vec<(String, Value)> = (0..na).map(|_| {
+            let k = kinds[rng.random_range(0..kinds.len())];
+            (k.to_string(), zoo::generate(k, &mut rng, usize::MAX))
+        }).collect();
+        let tail = tails[i % tails.len()];
+        let key = &keys[i % 3];
+        let mut txid = [0u8; 12];
+        rng.fill(&mut txid);
+        let mut b = stun_rs::StunMessageBuilder::new(stun_rs::methods::BINDING, class_of((i % 4) as u8))
+            .with_transaction_id(stun_rs::TransactionId::from(txid));
+        let mut okc = true;
+        for (k, v) in &attrs {
+            match zoo::construct(k, v) { Ok(a) => b = b.with_attribute(a), Err(_) => okc = false }
+        }
+        if !okc { continue; }
+        for t in tail {
+            b = match *t {
+                "MessageIntegrity" => b.with_attribute(MessageIntegrity::new(key.lib.clone())),
+                "MessageIntegritySha256" => b.with_attribute(MessageIntegritySha256::new(key.lib.clone())),
+                _ => b.with_attribute(Fingerprint::default()),
+            };
+        }
+        let msg = b.build();
+        let mut buffer = vec![0u8; 100000];
+        let enc = stun_rs::MessageEncoderBuilder::default().build();
+        let Ok(Ok(size)) = catch_unwind(AssertUnwindSafe(|| enc.encode(&mut buffer, &msg))) else { continue };
+        if size > 700 { continue; }
+        let bytes = buffer[..size].to_vec();
+        nmsg += 1;
+        let targets: Vec<(&str, u16)> = if what == "integrity" {
+            tail.iter().filter(|k| k.starts_with("MessageIntegrity"))
+                .map(|k| if *k == "MessageIntegrity" { ("mi", obs::T_MI) } else { ("sha", obs::T_SHA) }).collect()
+        } else {
+            vec![("fp", obs::T_FP)]
+        };
+        for (tname, t) in targets {
+            let (base_ok, _) = accepted(&bytes, t, &key.lib);
+            // wrong keys differing in one character
+            let wrong: Vec<bool> = if what == "integrity" {
+                let pw = RT_PASSWORD;
+                let variants = [format!("{}x", pw), pw[1..].to_string(), pw.replacen('r', "R", 1), format!(" {}", pw)];
+                variants.iter().map(|w| {
+                    let k = match key.name {
+                        "st" => HMACKey::new_short_term(w.as_str()).unwrap(),
+                        "lt-md5" => HMACKey::new_long_term(RT_USER, RT_REALM, w.as_str(), Algorithm::from(AlgorithmId::MD5)).unwrap(),
+                        _ => HMACKey::new_long_term(RT_USER, RT_REALM, w.as_str(), Algorithm::from(AlgorithmId::SHA256)).unwrap(),
+                    };
+                    accepted(&bytes, t, &k).0
+                }).chain([
+                    // same password, other user / realm / algorithm for long-term keys
+                    accepted(&bytes, t, &HMACKey::new_long_term("rt-usex", RT_REALM, RT_PASSWORD, Algorithm::from(AlgorithmId::MD5)).unwrap()).0 && key.name != "st",
+                ]).collect()
+            } else { vec![] };
+            // library key bytes versus the reference key derivation
+            let key_ok = key.lib.as_bytes() == &key.raw[..];
+            writeln!(f, "{}", json!({"op":"fmsg","attr":tname,"t":t,"bytes":bytes_json(&bytes),"base_ok":base_ok,
+                                     "wrong_keys":wrong,"key":key.name,"key_ok":key_ok,"tail":tail})).unwrap();
+            count += 1;
+            for pos in 0..size {
+                let mut acc = Vec::new();
+                let mut panicked = false;
+                for bit in 0..8 {
+                    let mut alt = bytes.clone();
+                    alt[pos] ^= 1 << bit;
+                    let (a, p) = accepted(&alt, t, &key.lib);
+                    acc.push(a);
+                    panicked |= p;
+                }
+                // single-byte substitution classes
+                let mut sub = Vec::new();
+                if what != "integrity" {
+                    for v in [0x00u8, 0xFF, bytes[pos].wrapping_add(1), rng.random()] {
+                        if v == bytes[pos] { sub.push(false); continue; }
+                        let mut alt = bytes.clone();
+                        alt[pos] = v;
+                        let (a, p) = accepted(&alt, t, &key.lib);
+                        sub.push(a);
+                        panicked |= p;
+                    }
+                }
+                writeln!(f, "{}", json!({"op":"flt","attr":tname,"pos":pos + 1,"acc":acc,"sub":sub,"panic":panicked})).unwrap();
+                count += 1;
+            }
+        }
+    }
+    f.flush().unwrap();
+    println!("{}", json!({"records":count,"messages":nmsg}));
+}
+
 fn main() {
     std::panic::set_hook(Box::new(|_| {}));
     let args: Vec<String> = std::env::args().collect();
     match args.get(1).map(|s| s.as_str()).unwrap_or("") {
         "filter" => cmd_filter(&args),
         "buffers" => cmd_buffers(&args),
+        "roundtrip" => cmd_roundtrip(&args),
+        "msgtype" => cmd_msgtype(&args),
+        "ignorable" => cmd_ignorable(&args),
+        "faults" => cmd_faults(&args),
         _ => {
             eprintln!("usage: drive-codec filter ...");
             std::process::exit(2);
